@@ -328,6 +328,14 @@ func ZZHarnessP2P() {
 		var dec interface{}
 		dec, _, err = mv.validateP2PMessage(pmsg, time.Unix(now, 0))
 		_ = dec
+		if zzParam("REPEAT") == 1 {
+			// "before and after any history of previously validated messages": the same bytes delivered once more
+			// (whatever the first delivery left behind - caches, per-signer state - must not make the second one crash)
+			_, _, err2 := mv.validateP2PMessage(pmsg, time.Unix(now, 0))
+			if err2 != nil {
+				zzReach("repeat-rejected")
+			}
+		}
 		if err != nil {
 			zzReach("rejected")
 			var ve Error
